@@ -62,7 +62,7 @@ func vC18List(l []string) string {
 }
 
 var vC18Labels = []string{"example", "notexample", "exampl", "com", "org", "net", "a", "b", "www", "ads", "x1", "sub", "tracker",
-	"zone", "quiz", "az", "z", "a[b", "q{r", "x`y", "fghijklmnopqrstuvwxyz"}
+	"zone", "quiz", "az", "z", "a[b", "q{r", "x`y", "fghijklmnopqrstuvwxyz", `w\\`, `e\\\.f`}
 
 func vC18Name(r *rand.Rand) string {
 	n := 1 + r.Intn(3)
